@@ -14,6 +14,107 @@ Require SR.Model.Recfm SR.Model.Estruct SR.Model.Registry.
 Require Import SR.Proofs.HeaderRowP SR.Proofs.RecfmP SR.Proofs.EstructP.
 Open Scope nat_scope.
 
+(* ================================================================ the glue of implementations.py, in closed form
+   Model/Workbook.v interprets the records of Gen/ImplParams.v (read from XLSUnpacker, XLSXUnpacker, ODSUnpacker and
+   NumbersUnpacker on every run).  The lemmas of this section state what the interpretation comes to for the values the
+   source has NOW, each proved by computation from those values; everything below uses these lemmas and never unfolds
+   the interpreter.  An edit of the glue (iter_rows(min_row=2), str(cell.value), a dropped sheet name, another separator,
+   reversed(...)) changes Gen/ImplParams.v and one of these proofs stops. *)
+Lemma map_res_id {A} (f : A -> res A) (l : list A) : (forall x, f x = Ok x) -> map_res f l = Ok l.
+Proof.
+  intros H. induction l as [|x l IH]; [reflexivity|]. cbn [map_res]. rewrite H, IH. reflexivity.
+Qed.
+
+(* the cell delivered is the stored cell itself: cell.value of the library's cell object (xlrd, openpyxl, numbers_parser),
+   the item of the row (pyexcel); no conversion *)
+Lemma rule_cell (o : office) (c : cell) : deliver_cell o (glue_of o) c = Ok c.
+Proof. destruct o as [[| |]|]; reflexivity. Qed.
+
+(* every cell of the row, in order *)
+Lemma rule_row (o : office) (r : row) : deliver_row o (glue_of o) r = Ok r.
+Proof.
+  unfold deliver_row.
+  replace (apply_ops (g_cells_ops (glue_of o)) r) with r by (destruct o as [[| |]|]; reflexivity).
+  apply map_res_id. apply rule_cell.
+Qed.
+
+(* every stored row, once, in order (no first-row offset, no step, no reversal; the ODS guard skips only a sheet
+   without rows) *)
+Lemma rule_pick_rows (o : office) (rows : sheet) : pick_rows o (glue_of o) rows = rows.
+Proof.
+  assert (H : firstn (length rows - 0) (skipn 0 rows) = rows).
+  { rewrite Nat.sub_0_r. cbn [skipn]. apply firstn_all. }
+  destruct o as [[| |]|]; unfold pick_rows; cbn; try exact H.
+  destruct rows; [reflexivity|exact H].
+Qed.
+
+Lemma rule_deliver (o : office) (rows : sheet) : deliver o (glue_of o) rows = Ok rows.
+Proof. unfold deliver. rewrite rule_pick_rows. apply map_res_id. apply rule_row. Qed.
+
+(* sheet_iter of the XLS / XLSX / ODS unpackers: the stored sheet names, all of them, in stored order *)
+Lemma rule_names_book (b : book) (ss : list (key * sheet)) : sheet_names (C_multi b ss) = map fst ss.
+Proof. destruct b; reflexivity. Qed.
+
+(* instance_iter(name) of the XLS / XLSX / ODS unpackers: the rows stored under that name, KeyError without such a sheet *)
+Lemma rule_instances_book (b : book) (ss : list (key * sheet)) (name : key) :
+  wb_instances (C_multi b ss) name = match lookup ss name with Some rows => Ok rows | None => Err KeyError end.
+Proof.
+  cbn [wb_instances]. unfold instances_book.
+  replace (g_lookup (glue_of (O_book b))) with LK_name by (destruct b; reflexivity).
+  destruct (lookup ss name) as [rows|]; [apply rule_deliver|reflexivity].
+Qed.
+
+(* the separator NumbersUnpacker.sheet_iter writes between sheet and table name, and the one instance_iter splits at *)
+Lemma name_sep_eq : name_sep = [58; 58]%N.
+Proof. reflexivity. Qed.
+
+Lemma part_sep_eq : part_sep = [58; 58]%N.
+Proof. reflexivity. Qed.
+
+Lemma separators_agree : name_sep = [58; 58]%N /\ part_sep = name_sep.
+Proof. split; reflexivity. Qed.
+
+Lemma partition_sep_nil : partition_sep [] = ([], []).
+Proof. reflexivity. Qed.
+
+Lemma partition_sep_one (c : N) : partition_sep [c] = ([c], []).
+Proof. unfold partition_sep. rewrite part_sep_eq. cbn. destruct (c =? 58)%N; reflexivity. Qed.
+
+(* name.partition(::) one character at a time *)
+Lemma partition_sep_unf (c d : N) (t : key) :
+  partition_sep (c :: d :: t)
+  = if (c =? 58)%N && (d =? 58)%N then ([], t) else let (a, b) := partition_sep (d :: t) in (c :: a, b).
+Proof.
+  unfold partition_sep. rewrite part_sep_eq.
+  change (partition_by [58; 58]%N (c :: d :: t))
+    with (match strip_prefix [58; 58]%N (c :: d :: t) with
+          | Some rest => ([], rest)
+          | None => let (a, b) := partition_by [58; 58]%N (d :: t) in (c :: a, b)
+          end).
+  cbn [strip_prefix]. destruct (c =? 58)%N; [destruct (d =? 58)%N|]; reflexivity.
+Qed.
+
+(* NumbersUnpacker.sheet_iter: sheet::table for every table of every sheet, sheets and tables in stored order *)
+Lemma rule_names_numbers (ss : list (key * list (key * sheet))) :
+  sheet_names (C_numbers ss) = flat_map (fun s => map (fun t => fst s ++ name_sep ++ fst t) (snd s)) ss.
+Proof. reflexivity. Qed.
+
+(* NumbersUnpacker.instance_iter(name): the rows of sheets[first].tables[last] for name.partition(::) *)
+Lemma rule_instances_numbers (ss : list (key * list (key * sheet))) (name : key) :
+  wb_instances (C_numbers ss) name =
+  let (s, t) := partition_sep name in
+  match lookup ss s with
+  | None => Err KeyError
+  | Some tables => match lookup tables t with Some rows => Ok rows | None => Err KeyError end
+  end.
+Proof.
+  cbn [wb_instances]. unfold instances_numbers, partition_sep, part_sep.
+  change (g_lookup glue_NUMBERS) with (LK_partition [58; 58]%N). cbv iota beta.
+  destruct (partition_by [58; 58]%N name) as [s t].
+  destruct (lookup ss s) as [tables|]; [|reflexivity].
+  destruct (lookup tables t) as [rows|]; [apply (rule_deliver O_NUMBERS)|reflexivity].
+Qed.
+
 (* ================================================================ generic list facts *)
 Lemma map_nth_ext {A B} (f : A -> B) (g : nat -> B) (l : list A) : forall start,
   (forall i k, nth_error l i = Some k -> f k = g (start + i)) ->
@@ -112,13 +213,13 @@ Proof.
     + intros j s' Hj. replace (S i + j) with (i + S j) by lia. apply H2. exact Hj.
 Qed.
 
-Lemma multi_ok (W : workbook) : wf_workbook W ->
-  read_header (C_multi (map (fun s => (fst s, phys_sheet (snd s))) W)) (headers W) = expected W.
+Lemma multi_ok (b : book) (W : workbook) : wf_workbook W ->
+  read_header (C_multi b (map (fun s => (fst s, phys_sheet (snd s))) W)) (headers W) = expected W.
 Proof.
-  intros [Hnd Hwf]. unfold read_header. cbn [sheet_names]. rewrite map_map. cbn [fst].
+  intros [Hnd Hwf]. unfold read_header. rewrite rule_names_book, map_map. cbn [fst].
   apply sheets_ok.
   - intros [n T] Hin. split; [|rewrite Forall_forall in Hwf; exact (Hwf _ Hin)].
-    cbn [wb_instances fst snd]. erewrite lookup_in_nodup; [reflexivity|exact Hnd|exact Hin].
+    rewrite rule_instances_book. cbn [fst snd]. erewrite lookup_in_nodup; [reflexivity|exact Hnd|exact Hin].
   - intros j s Hj. cbn. apply probes_headers. exact Hj.
 Qed.
 
@@ -133,13 +234,12 @@ Qed.
 Lemma partition_no_colon (s t : key) :
   forallb (fun c => negb (c =? 58)%N) s = true -> partition_sep (s ++ name_sep ++ t) = (s, t).
 Proof.
-  induction s as [|c s IH]; intros H; [reflexivity|].
+  induction s as [|c s IH]; intros H.
+  { rewrite name_sep_eq. cbn [app]. rewrite partition_sep_unf. reflexivity. }
   cbn [forallb] in H. apply andb_prop in H as [Hc Hs]. apply negb_true_iff in Hc.
   cbn [app]. specialize (IH Hs). remember (s ++ name_sep ++ t) as rest eqn:E.
-  destruct rest as [|d t']; [destruct s; discriminate E|].
-  change (partition_sep (c :: d :: t'))
-    with (if (c =? 58)%N && (d =? 58)%N then (@nil N, t') else let (a, b) := partition_sep (d :: t') in (c :: a, b)).
-  rewrite Hc, IH. reflexivity.
+  destruct rest as [|d t']; [rewrite name_sep_eq in E; destruct s; discriminate E|].
+  rewrite partition_sep_unf, Hc, IH. reflexivity.
 Qed.
 
 (* every stored (sheet, table) name pair is found again by partition *)
@@ -156,7 +256,7 @@ Lemma numbers_ok (d : numbers_doc) : wf_numbers d ->
 Proof.
   intros (Hnd & Hsheets & Hsplit). unfold read_header.
   assert (Hnames : sheet_names (phys_numbers d) = map fst (flatten_numbers d)).
-  { unfold phys_numbers, flatten_numbers. cbn [sheet_names]. clear.
+  { unfold phys_numbers, flatten_numbers. rewrite rule_names_numbers, name_sep_eq. clear.
     induction d as [|s d IH]; [reflexivity|].
     cbn [map flat_map fst snd]. rewrite map_app, IH. f_equal.
     rewrite !map_map. reflexivity. }
@@ -165,7 +265,7 @@ Proof.
     apply in_map_iff in Hin as (t & E & Ht). injection E as <- <-.
     rewrite Forall_forall in Hsheets. destruct (Hsheets s Hs) as [Hndt Hwft].
     rewrite Forall_forall in Hwft. split; [|exact (Hwft t Ht)].
-    cbn [fst snd]. unfold phys_numbers. cbn [wb_instances].
+    cbn [fst snd]. unfold phys_numbers. rewrite rule_instances_numbers.
     rewrite (Hsplit s t Hs Ht).
     destruct s as [sn tables]. cbn [fst snd] in *.
     erewrite (lookup_in_nodup (fun tbs => map (fun t => (fst t, phys_sheet (snd t))) tbs)); [|exact Hnd|exact Hs].
@@ -809,3 +909,59 @@ Qed.
 Lemma rows_preset_is_row_iter keep (s : schema) (src : sheet) :
   row_iter NoLoader (Some s) src = Ok (Some s, src) /\ rows_preset keep (Some s) src = Ok src.
 Proof. split; [apply rows_noloader|apply rows_preset_some]. Qed.
+
+(* ================================================================ the office glue is the identity on the parsed document
+   (Props/C03d.v).  The cells are ANY cells - str, numbers, dates, None ([Obj]) - not only the text cells of [phys]. *)
+Lemma office_glue_identity :
+  (forall (b : book) (ss : list (key * sheet)),
+     sheet_names (C_multi b ss) = map fst ss
+     /\ forall name, wb_instances (C_multi b ss) name
+                     = match lookup ss name with Some rows => Ok rows | None => Err KeyError end)
+  /\ (forall (ss : list (key * list (key * sheet))),
+     sheet_names (C_numbers ss) = flat_map (fun s => map (fun t => fst s ++ [58; 58]%N ++ fst t) (snd s)) ss
+     /\ forall s t, forallb (fun c => negb (c =? 58)%N) s = true ->
+          wb_instances (C_numbers ss) (s ++ [58; 58]%N ++ t)
+          = match lookup ss s with
+            | None => Err KeyError
+            | Some tables => match lookup tables t with Some rows => Ok rows | None => Err KeyError end
+            end).
+Proof.
+  split.
+  - intros b ss. split; [apply rule_names_book|]. intros name. apply rule_instances_book.
+  - intros ss. split; [rewrite rule_names_numbers, name_sep_eq; reflexivity|].
+    intros s t Hs. rewrite rule_instances_numbers.
+    pose proof (partition_no_colon s t Hs) as Hp. rewrite name_sep_eq in Hp. rewrite Hp. reflexivity.
+Qed.
+
+Lemma lookup_in_nodup_plain {V} (d : list (key * V)) k v :
+  NoDup (map fst d) -> In (k, v) d -> lookup d k = Some v.
+Proof.
+  intros Hnd Hin. pose proof (lookup_in_nodup (fun x : V => x) d k v Hnd Hin) as H. cbv beta in H.
+  assert (E : map (fun s : key * V => (fst s, snd s)) d = d).
+  { clear. induction d as [|[a b] d IH]; [reflexivity|]. cbn [map fst snd]. f_equal. exact IH. }
+  rewrite E in H. exact H.
+Qed.
+
+(* every stored sheet is announced by sheet_iter and read back whole: the same rows, in the same order, every cell as
+   the parser holds it *)
+Lemma office_every_sheet (b : book) (ss : list (key * sheet)) (n : key) (rows : sheet) :
+  NoDup (map fst ss) -> In (n, rows) ss ->
+  In n (sheet_names (C_multi b ss)) /\ wb_instances (C_multi b ss) n = Ok rows.
+Proof.
+  intros Hnd Hin. rewrite rule_names_book, rule_instances_book. split.
+  - change n with (fst (n, rows)). apply in_map. exact Hin.
+  - rewrite (lookup_in_nodup_plain ss n rows Hnd Hin). reflexivity.
+Qed.
+
+Lemma numbers_every_table (ss : list (key * list (key * sheet))) (s t : key) (tables : list (key * sheet)) (rows : sheet) :
+  NoDup (map fst ss) -> In (s, tables) ss -> NoDup (map fst tables) -> In (t, rows) tables ->
+  forallb (fun c => negb (c =? 58)%N) s = true ->
+  In (s ++ [58; 58]%N ++ t) (sheet_names (C_numbers ss)) /\ wb_instances (C_numbers ss) (s ++ [58; 58]%N ++ t) = Ok rows.
+Proof.
+  intros Hnd Hs Hndt Ht Hcolon. destruct office_glue_identity as [_ Hn]. destruct (Hn ss) as [Hnames Hinst].
+  rewrite Hnames, (Hinst s t Hcolon). split.
+  - apply in_flat_map. exists (s, tables). split; [exact Hs|]. cbn [fst snd].
+    change (s ++ [58; 58]%N ++ t) with ((fun x : key * sheet => s ++ [58; 58]%N ++ fst x) (t, rows)).
+    apply in_map. exact Ht.
+  - rewrite (lookup_in_nodup_plain ss s tables Hnd Hs), (lookup_in_nodup_plain tables t rows Hndt Ht). reflexivity.
+Qed.
